@@ -70,12 +70,20 @@ def NoTagKV : List (String × Val N) → Prop
   | (k, v) :: kvs => k ≠ tagKey ∧ NoTag v ∧ NoTagKV kvs
 end
 
+mutual
 /-- JSON round trip of the clone: function values become "" -/
-partial def cloneVal : Val N → Val N
-  | .arr xs => .arr (xs.map cloneVal)
-  | .obj kvs => .obj (kvs.map fun p => (p.1, cloneVal p.2))
+def cloneVal : Val N → Val N
+  | .arr xs => .arr (cloneL xs)
+  | .obj kvs => .obj (cloneKV kvs)
   | .null => .null | .bool b => .bool b | .num x => .num x | .str s => .str s
   | _ => .str ""
+def cloneL : List (Val N) → List (Val N)
+  | [] => []
+  | x :: xs => cloneVal x :: cloneL xs
+def cloneKV : List (String × Val N) → List (String × Val N)
+  | [] => []
+  | (k, v) :: kvs => (k, cloneVal v) :: cloneKV kvs
+end
 
 def pathOfTag : Val N → Option (List Nat)
   | .obj kvs =>
@@ -84,24 +92,49 @@ def pathOfTag : Val N → Option (List Nat)
     | _ => none
   | _ => none
 
+mutual
 /-- the tagged object with location `p`, found by its tag (positions shift when members are deleted or
     added, tags do not) -/
-partial def getAt (v : Val N) (p : List Nat) : Option (Val N) :=
+def getAt (v : Val N) (p : List Nat) : Option (Val N) :=
   match v with
-  | .arr xs => xs.findSome? (fun x => getAt x p)
+  | .arr xs => getAtL xs p
   | .obj kvs =>
     if pathOfTag (.obj kvs) == some p then some (.obj kvs)
-    else kvs.findSome? (fun q => if q.1 == tagKey then none else getAt q.2 p)
+    else getAtKV kvs p
   | _ => none
+def getAtL (xs : List (Val N)) (p : List Nat) : Option (Val N) :=
+  match xs with
+  | [] => none
+  | x :: rest => match getAt x p with
+    | some r => some r
+    | none => getAtL rest p
+def getAtKV (kvs : List (String × Val N)) (p : List Nat) : Option (Val N) :=
+  match kvs with
+  | [] => none
+  | (k, v) :: rest =>
+    match (if k == tagKey then none else getAt v p) with
+    | some r => some r
+    | none => getAtKV rest p
+end
 
+mutual
 /-- replace the tagged object with location `p` -/
-partial def modifyAt (f : Val N → Val N) (v : Val N) (p : List Nat) : Val N :=
+def modifyAt (f : Val N → Val N) (v : Val N) (p : List Nat) : Val N :=
   match v with
-  | .arr xs => .arr (xs.map fun x => modifyAt f x p)
+  | .arr xs => .arr (modifyAtL f xs p)
   | .obj kvs =>
     if pathOfTag (.obj kvs) == some p then f (.obj kvs)
-    else .obj (kvs.map fun q => if q.1 == tagKey then q else (q.1, modifyAt f q.2 p))
+    else .obj (modifyAtKV f kvs p)
   | v => v
+def modifyAtL (f : Val N → Val N) (xs : List (Val N)) (p : List Nat) : List (Val N) :=
+  match xs with
+  | [] => []
+  | x :: rest => modifyAt f x p :: modifyAtL f rest p
+def modifyAtKV (f : Val N → Val N) (kvs : List (String × Val N)) (p : List Nat) : List (String × Val N) :=
+  match kvs with
+  | [] => []
+  | (k, v) :: rest => (if k == tagKey then (k, v) else (k, modifyAt f v p)) :: modifyAtKV f rest p
+end
 
 def allStrsV : List (Val N) → Option (List String)
   | [] => some []
